@@ -27,13 +27,27 @@ func c03Specs(tier string) []spaceSpec {
 			{sp: &gram.Space{Name: "root+inline-memo", Alpha: fullMemo, HasRoot: true, Min: 2, Max: 6}, maxLen: 4, alpha: ab},
 			{sp: &gram.Space{Name: "root+1shared", Alpha: fullMemo, NSh: 1, HasRoot: true, Min: 2, Max: 7}, maxLen: 4, alpha: ab},
 			{sp: &gram.Space{Name: "root+2shared", Alpha: gram.Full, NSh: 2, HasRoot: true, Min: 3, Max: 7}, maxLen: 3, alpha: ab},
+			quietSpace(8),
 		}
 	}
 	return []spaceSpec{
 		{sp: &gram.Space{Name: "root+inline-memo", Alpha: fullMemo, HasRoot: true, Min: 2, Max: 5}, maxLen: 4, alpha: ab},
 		{sp: &gram.Space{Name: "root+1shared", Alpha: fullMemo, NSh: 1, HasRoot: true, Min: 2, Max: 6}, maxLen: 4, alpha: ab},
 		{sp: &gram.Space{Name: "root+2shared", Alpha: gram.Full, NSh: 2, HasRoot: true, Min: 3, Max: 6}, maxLen: 3, alpha: ab},
+		quietSpace(7),
 	}
+}
+
+// quietConsumers: a fixed memoized S0 that SUCCEEDS while recording a furthest error in the context
+// (`Any(SeqOf(a,b), a)` on "a..."), under every small root over {SuppressError, Any, SeqOf, S0, a, b}: a cache hit
+// replays node and error but not what the first run wrote into the context, which only matters if something
+// (a SuppressError that restores the context, say) can take that away again.
+var quietAlphabet = gram.Alphabet{Name: "suppress-consumers", Terminals: []byte{'a', 'b'}, Unary: []gram.Kind{gram.SupErr, gram.Opt}, Binary: []gram.Kind{gram.Any, gram.Seq}}
+
+func quietSpace(maxRoot int) spaceSpec {
+	g, _ := gram.Parse("N0=(any (seq a b) a)")
+	return spaceSpec{sp: &gram.Space{Name: "suppress-consumers of S0!=(any (seq a b) a)", Alpha: quietAlphabet, HasRoot: true, Min: 2, Max: maxRoot,
+		FixedShared: []*gram.Expr{g.NTs[0]}, FixedSharedMemo: []bool{true}}, maxLen: 3, alpha: ab, noSubsets: true}
 }
 
 var c03Seeds = []Case{
@@ -272,7 +286,7 @@ func c03Run(env *explore.Env) *explore.Result {
 				return
 			}
 			res.Add("grammars", 1)
-			c03Grammar(res, g, inputs, true, false, 0)
+			c03Grammar(res, g, inputs, !s.noSubsets, false, 0)
 		})
 	}
 	return res
